@@ -23,7 +23,10 @@ class GraphQLError(Exception):
 
     def __init__(self, message: str = ""):
         super().__init__(message)
-        self.message = message
+        # `message` is documented as a string and ends up in responses; accept
+        # the common `raise ResolverError(err)` idiom (or `None`, a number)
+        # like `Exception` does instead of failing when the error is rendered.
+        self.message = message if isinstance(message, str) else str(message)
 
     def __str__(self) -> str:
         return self.message
